@@ -631,6 +631,9 @@ func getWSHostPort(si *network.ServerIdentity, global bool) (string, error) {
 		if err != nil {
 			return "", fmt.Errorf("unable to parse port of Address as int: %v", err)
 		}
+		if portRaw >= 1<<portBitSize-1 {
+			return "", fmt.Errorf("port %d of Address leaves no room for the websocket port", portRaw)
+		}
 		port = uint16(portRaw + 1)
 		hostname = si.Address.Host()
 	}
